@@ -207,6 +207,201 @@ var jsonEncFields = map[string]fieldSpec{
 	"openNamespaces": {"openNs", "int"},
 }
 
+// ---- the structural methods of the JSON encoder (zapcore/json_encoder.go).  addElementSeparator / addKey /
+// closeOpenNamespaces are intrinsics HERE: they are `Enc.sep`, `Enc.addKey` and the closing braces, which the table
+// TransJsonSep proves about the source.  Marshalers, the reflected encoder and the buffer pool are intrinsics handed
+// the fields they may touch; reflectBuf is a nil-able *buffer.Buffer.
+var jeFields = map[string]fieldSpec{
+	"buf": {"buf", "Buffer"}, "spaced": {"spaced", "bool"}, "openNamespaces": {"openNs", "int"},
+	"reflectBuf": {"rbuf", "opt:Buffer"}, "reflectEnc": {"renc", "opt:ReflEnc"}, "NewReflectedEncoder": {"newRefl", "ReflCtor"},
+	"EncoderConfig": {"cfg", "opt:Config"}, "#ev": {"ev", "[]Event"},
+}
+
+// the second *jsonEncoder of clone / Clone (the clone being made) and of EncodeEntry (the receiver, once `final` is primary)
+var jeOther = map[string]fieldSpec{
+	"buf": {"o.buf", "Buffer"}, "spaced": {"o.spaced", "bool"}, "openNamespaces": {"o.openNs", "int"},
+	"EncoderConfig": {"o.cfg", "opt:Config"}, "MessageKey": {"messageKey", "string"},
+}
+var jeOtherSelf = &fieldSpec{"o.self", "JE"}
+
+// EncodeEntry: `final` (the clone) is the primary object; the promoted EncoderConfig fields are shared with the receiver
+var jeEntryFields = merge2(jeFields, map[string]fieldSpec{
+	"LevelKey": {"levelKey", "string"}, "TimeKey": {"timeKey", "string"}, "NameKey": {"nameKey", "string"},
+	"CallerKey": {"callerKey", "string"}, "FunctionKey": {"functionKey", "string"}, "MessageKey": {"messageKey", "string"},
+	"StacktraceKey": {"stacktraceKey", "string"}, "LineEnding": {"lineEnding", "string"},
+	"EncodeLevel": {"encLevel", "opt:LevelEncoder"}, "EncodeName": {"encName", "opt:NameEncoder"},
+	"EncodeCaller": {"encCaller", "opt:CallerEncoder"}, "EncodeTime": {"encTime", "opt:TimeEncoder"},
+})
+
+func merge1(ms ...map[string]string) map[string]string {
+	out := map[string]string{}
+	for _, m := range ms {
+		for k, v := range m {
+			out[k] = v
+		}
+	}
+	return out
+}
+
+func merge2(ms ...map[string]fieldSpec) map[string]fieldSpec {
+	out := map[string]fieldSpec{}
+	for _, m := range ms {
+		for k, v := range m {
+			out[k] = v
+		}
+	}
+	return out
+}
+var jeSelf = &fieldSpec{"self", "JE"}
+var jeTypes = map[string]string{"ObjectMarshaler": "ObjM", "ArrayMarshaler": "ArrM", "interface{}": "opt:Any",
+	"*buffer.Buffer": "Buffer", "*jsonEncoder": "JE", "Encoder": "JE"}
+var jeState = []string{"buf", "openNamespaces", "reflectBuf", "reflectEnc"} // what a callee handed the encoder may change
+var jeCalls = merge(bufferCalls, map[string]shim{
+	"recv.addElementSeparator": {kind: "extfld", f: "addElementSeparator", flds: []string{"buf"}, with: []string{"spaced"}},
+	"recv.addKey":              {kind: "extfld", f: "addKey", flds: []string{"buf"}, with: []string{"spaced"}},
+	"recv.closeOpenNamespaces": {kind: "extfld", f: "closeOpenNamespaces", flds: []string{"buf", "openNamespaces"}},
+	// the marshaler is handed the encoder: it may append to buf, open namespaces, use the reflection scratch
+	"ObjM.MarshalLogObject": {kind: "extfld", f: "MarshalLogObject", flds: jeState, with: []string{"spaced"}, res: []string{"error"}},
+	"ArrM.MarshalLogArray":  {kind: "extfld", f: "MarshalLogArray", flds: jeState, with: []string{"spaced"}, res: []string{"error"}},
+	"Buffer.Write":          {kind: "mutext", f: "Buffer.Write", res: []string{"int", "error"}},
+	// reflection scratch: pooled buffer, user-configurable encoder writing into it
+	"bufferpool.Get":           {kind: "extstmt", f: "bufferpool.GetPtr", res: []string{"opt:Buffer"}, trace: "#ev"},
+	"recv.NewReflectedEncoder": {kind: "ext", f: "NewReflectedEncoder", with: []string{"NewReflectedEncoder"}, res: []string{"opt:ReflEnc"}},
+	"opt:Buffer.Reset":         {kind: "set", f: ".list [.bytes []]"},
+	"opt:Buffer.TrimNewline":   {kind: "mut", f: "Buffer.TrimNewline"},
+	"opt:Buffer.Bytes":         {kind: "ext", f: "optBuffer.Bytes", res: []string{"bytes"}},
+	"opt:Buffer.Free":          {kind: "extstmt", f: "Buffer.Free", trace: "#ev"},
+	"opt:ReflEnc.Encode":       {kind: "extfld", f: "ReflEnc.Encode", flds: []string{"reflectBuf"}, res: []string{"error"}},
+})
+
+func jeFunc(name string, extra map[string]shim) transFunc {
+	return transFunc{file: "zapcore/json_encoder.go", recv: "jsonEncoder", name: name, lean: name, fields: jeFields, recvAs: jeSelf,
+		types: jeTypes, consts: map[string]string{"nullLiteralBytes": "src"}, calls: merge(jeCalls, extra)}
+}
+
+// ---- the console encoder (zapcore/console_encoder.go): `c` is a VALUE embedding the logger's *jsonEncoder (the context);
+// the metadata columns go through a pooled sliceArrayEncoder (a record [elems] of printed texts), the context through
+// a clone of the JSON encoder (`context`, the primary object of writeContext)
+var conFields = map[string]fieldSpec{
+	"TimeKey": {"timeKey", "string"}, "LevelKey": {"levelKey", "string"}, "NameKey": {"nameKey", "string"},
+	"CallerKey": {"callerKey", "string"}, "FunctionKey": {"functionKey", "string"}, "MessageKey": {"messageKey", "string"},
+	"StacktraceKey": {"stacktraceKey", "string"}, "LineEnding": {"lineEnding", "string"}, "ConsoleSeparator": {"consoleSep", "string"},
+	"EncodeTime": {"encTime", "opt:TimeEncoder"}, "EncodeLevel": {"encLevel", "opt:LevelEncoder"},
+	"EncodeName": {"encName", "opt:NameEncoder"}, "EncodeCaller": {"encCaller", "opt:CallerEncoder"}, "#ev": {"ev", "[]Event"},
+}
+var conTypes = map[string]string{"*buffer.Buffer": "Buffer", "Entry": "struct:Entry", "Field": "Field", "Level": "i8",
+	"time.Time": "Time", "EntryCaller": "struct:EntryCaller", "*jsonEncoder": "JE"}
+var conStructs = map[string][]fieldSpec{
+	"Entry": {{"Level", "i8"}, {"Time", "Time"}, {"LoggerName", "string"}, {"Message", "string"},
+		{"Caller", "struct:EntryCaller"}, {"Stack", "string"}},
+	"EntryCaller": {{"Defined", "bool"}, {"Function", "string"}, {"Rest", "CallerRest"}},
+	"SliceEnc":    {{"elems", "[]Col"}},
+}
+
+// ---- exp/zapslog/handler.go.  slog values are opaque (`SlogValue`): their kind, their resolution, their group members
+// and their scalar payloads are intrinsics; zap field constructors are free constructors.  A Handler is the primary
+// object; `cloned := *h` is the second one.  `append` to a slice field is refused here (noFieldAppend): derived
+// handlers must not share the backing array of `groups`.
+var slogFields = map[string]fieldSpec{
+	"core": {"core", "Core"}, "name": {"name", "string"}, "addCaller": {"addCaller", "bool"}, "addStackAt": {"addStackAt", "int"},
+	"callerSkip": {"callerSkip", "int"}, "groups": {"groups", "[]string"}, "#ev": {"ev", "[]Event"},
+}
+var slogOther = map[string]fieldSpec{
+	"core": {"o.core", "Core"}, "name": {"o.name", "string"}, "addCaller": {"o.addCaller", "bool"}, "addStackAt": {"o.addStackAt", "int"},
+	"callerSkip": {"o.callerSkip", "int"}, "groups": {"o.groups", "[]string"},
+}
+var slogTypes = map[string]string{"slog.Level": "int", "zapcore.Level": "i8", "slog.Attr": "struct:SlogAttr", "zapcore.Field": "Field",
+	"slog.Handler": "Handler", "slog.Record": "struct:SlogRecord", "context.Context": "Ctx", "groupObject": "[]struct:SlogAttr",
+	"zapcore.Entry": "struct:Entry", "zapcore.EntryCaller": "struct:EntryCaller", "time.Time": "Time", "uintptr": "u64"}
+var slogStructs = map[string][]fieldSpec{
+	"SlogAttr":    {{"Key", "string"}, {"Value", "SlogValue"}},
+	"SlogRecord":  {{"Level", "int"}, {"Time", "Time"}, {"Message", "string"}, {"PC", "u64"}, {"Attrs", "RecordAttrs"}},
+	"Entry":       {{"Level", "i8"}, {"Time", "Time"}, {"Message", "string"}, {"LoggerName", "string"}},
+	"EntryCaller": {{"Defined", "bool"}, {"PC", "u64"}, {"File", "string"}, {"Line", "int"}, {"Function", "string"}},
+	"Frame":       {{"PC", "u64"}, {"File", "string"}, {"Line", "int"}, {"Function", "string"}},
+	"CE":          {{"Caller", "struct:EntryCaller"}, {"Stack", "string"}, {"Rest", "CERest"}},
+}
+var slogConsts = map[string]string{
+	"slog.LevelError": "8", "slog.LevelWarn": "4", "slog.LevelInfo": "0",
+	"zapcore.ErrorLevel": "i8:2", "zapcore.WarnLevel": "i8:1", "zapcore.InfoLevel": "i8:0", "zapcore.DebugLevel": "i8:-1",
+	"slog.KindAny": "0", "slog.KindBool": "1", "slog.KindDuration": "2", "slog.KindFloat64": "3", "slog.KindInt64": "4",
+	"slog.KindString": "5", "slog.KindTime": "6", "slog.KindUint64": "7", "slog.KindGroup": "8", "slog.KindLogValuer": "9",
+}
+var slogCalls = map[string]shim{
+	"SlogValue.Resolve":     {kind: "ext", f: "Value.Resolve", res: []string{"SlogValue"}},
+	"SlogValue.Kind":        {kind: "ext", f: "Value.Kind", res: []string{"int"}},
+	"SlogValue.Group":       {kind: "ext", f: "Value.Group", res: []string{"[]struct:SlogAttr"}},
+	"struct:SlogAttr.Equal": {kind: "ext", f: "Attr.Equal", res: []string{"bool"}},
+	"SlogValue.Bool":        {kind: "ext", f: "Value.Payload", res: []string{"Payload"}},
+	"SlogValue.Duration":    {kind: "ext", f: "Value.Payload", res: []string{"Payload"}},
+	"SlogValue.Float64":     {kind: "ext", f: "Value.Payload", res: []string{"Payload"}},
+	"SlogValue.Int64":       {kind: "ext", f: "Value.Payload", res: []string{"Payload"}},
+	"SlogValue.String":      {kind: "ext", f: "Value.Payload", res: []string{"Payload"}},
+	"SlogValue.Time":        {kind: "ext", f: "Value.Payload", res: []string{"Payload"}},
+	"SlogValue.Uint64":      {kind: "ext", f: "Value.Payload", res: []string{"Payload"}},
+	"SlogValue.Any":         {kind: "ext", f: "Value.Payload", res: []string{"Payload"}},
+	"zap.Skip":              {kind: "ext", f: "zap.Skip", res: []string{"Field"}},
+	"zap.Bool":              {kind: "ext", f: "zap.Bool", res: []string{"Field"}},
+	"zap.Duration":          {kind: "ext", f: "zap.Duration", res: []string{"Field"}},
+	"zap.Float64":           {kind: "ext", f: "zap.Float64", res: []string{"Field"}},
+	"zap.Int64":             {kind: "ext", f: "zap.Int64", res: []string{"Field"}},
+	"zap.String":            {kind: "ext", f: "zap.String", res: []string{"Field"}},
+	"zap.Time":              {kind: "ext", f: "zap.Time", res: []string{"Field"}},
+	"zap.Uint64":            {kind: "ext", f: "zap.Uint64", res: []string{"Field"}},
+	"zap.Any":               {kind: "ext", f: "zap.Any", res: []string{"Field"}},
+	"zap.Inline":            {kind: "ext", f: "zap.Inline", res: []string{"Field"}},
+	"zap.Object":            {kind: "ext", f: "zap.Object", res: []string{"Field"}},
+	"zap.Namespace":         {kind: "ext", f: "zap.Namespace", res: []string{"Field"}},
+	"hasContent":            {kind: "fun", f: "hasContent", res: []string{"bool"}},
+	"convertAttrToField":    {kind: "fun", f: "convertAttrToField", res: []string{"Field"}},
+	"convertSlogLevel":      {kind: "fun", f: "convertSlogLevel", res: []string{"i8"}},
+	"recv.appendGroups":     {kind: "fun", f: "appendGroups", res: []string{"[]Field"}},
+	"Core.With":             {kind: "ext", f: "Core.With", res: []string{"Core"}},
+	"make":                  {kind: "ext", f: "make.strings", res: []string{"[]string"}},
+	"copy":                  {kind: "mutarg:0", f: "copy", res: []string{"int"}},
+	"slice.set":             {kind: "ext", f: "slice.set"},
+}
+
+func slogFunc(recv, name string, extra map[string]shim) transFunc {
+	return transFunc{file: "exp/zapslog/handler.go", recv: recv, name: name, lean: name, fields: slogFields, recvAs: &fieldSpec{"self", "Handler"},
+		other: slogOther, otherAs: &fieldSpec{"o.self", "Handler"}, types: slogTypes, structs: slogStructs, consts: slogConsts,
+		zeros: map[string]string{"SlogValue": ".list []"}, comparable: []string{"Field"}, noFieldAppend: true,
+		calls: merge(slogCalls, extra)}
+}
+
+// ---- opening and building (writer.go, config.go, sink.go, global.go): call-order / cleanup skeletons.  url.Parse, the
+// sink registry, the OS opener, Close, the closures handed back and the standard logger's state are recorded intrinsics
+// or pseudo-fields; what is proved is WHICH of them are called, in what order, on which path.
+var openTypes = map[string]string{"zapcore.WriteSyncer": "opt:Sink", "io.Closer": "opt:Sink", "Sink": "opt:Sink", "func()": "opt:Closure",
+	"*url.URL": "ptr:struct:URL", "*Logger": "Logger", "zapcore.Level": "i8", "zapcore.Encoder": "opt:Encoder", "Option": "Option", "Field": "Field"}
+
+// Build returns a nil *Logger on its error paths
+func buildTypes(f transFunc) transFunc {
+	f.types = merge1(f.types, map[string]string{"*Logger": "opt:Logger"})
+	f.comparable = []string{"AtomicLevel"} // a struct holding one pointer: == is pointer equality
+	return f
+}
+var openStructs = map[string][]fieldSpec{
+	"URL": {{"Scheme", "string"}, {"User", "opt:Userinfo"}, {"Fragment", "string"}, {"RawQuery", "string"}, {"Path", "string"},
+		{"Rest", "URLRest"}},
+	"SamplingConfig": {{"Initial", "int"}, {"Thereafter", "int"}, {"Hook", "opt:SamplerHook"}},
+}
+var openFields = map[string]fieldSpec{"#ev": {"ev", "[]Event"}}
+var openCalls = map[string]shim{
+	"fmt.Errorf":      {kind: "ext", f: "fmt.Errorf", res: []string{"error"}},
+	"errors.New":      {kind: "ext", f: "errors.New", res: []string{"error"}},
+	"multierr.Append": {kind: "builtin", f: "append...", res: []string{"error"}},
+}
+
+func openFunc(file, recv, name string, fields map[string]fieldSpec, consts map[string]string, extra map[string]shim) transFunc {
+	lean := name
+	if name == "open" { // a Lean keyword
+		lean = "openAll"
+	}
+	return transFunc{file: file, recv: recv, name: name, lean: lean, fields: merge2(openFields, fields), types: openTypes,
+		structs: openStructs, consts: consts, calls: merge(openCalls, extra)}
+}
+
 var stdCalls = map[string]shim{
 	"bytes.IndexByte":       {kind: "builtin", f: "bytes.IndexByte", res: []string{"int"}},
 	"strings.IndexByte":     {kind: "builtin", f: "strings.IndexByte", res: []string{"int"}},
@@ -358,6 +553,228 @@ var transSpecs = []transSpec{
 				"runtime.CallersFrames": {kind: "ext", f: "runtime.CallersFrames", res: []string{"Frames"}},
 				"make":                  {kind: "ext", f: "make.zeros", res: []string{"[]u64"}},
 			}},
+	}},
+	{table: "TransJsonEnc", funcs: []transFunc{
+		jeFunc("AppendObject", nil),
+		jeFunc("AppendArray", nil),
+		jeFunc("AddObject", map[string]shim{"recv.AppendObject": {kind: "fun", f: "AppendObject", res: []string{"error"}}}),
+		jeFunc("AddArray", map[string]shim{"recv.AppendArray": {kind: "fun", f: "AppendArray", res: []string{"error"}}}),
+		jeFunc("OpenNamespace", nil),
+		jeFunc("resetReflectBuf", nil),
+		jeFunc("encodeReflected", map[string]shim{"recv.resetReflectBuf": {kind: "fun", f: "resetReflectBuf"}}),
+		jeFunc("AppendReflected", map[string]shim{"recv.encodeReflected": {kind: "fun", f: "encodeReflected", res: []string{"bytes", "error"}}}),
+		jeFunc("AddReflected", map[string]shim{"recv.encodeReflected": {kind: "fun", f: "encodeReflected", res: []string{"bytes", "error"}}}),
+		jeFunc("truncate", nil),
+		{file: "zapcore/json_encoder.go", recv: "jsonEncoder", name: "clone", lean: "clone", fields: jeFields, recvAs: jeSelf,
+			other: jeOther, otherAs: jeOtherSelf, types: jeTypes,
+			calls: merge(bufferCalls, map[string]shim{
+				// the pooled encoder: its fields at entry are whatever the pool held (reset by putJSONEncoder)
+				"_jsonPool.Get":  {kind: "object", f: "jsonPool.Get", trace: "#ev"},
+				"bufferpool.Get": {kind: "extstmt", f: "bufferpool.Get", res: []string{"Buffer"}, trace: "#ev"},
+			})},
+		{file: "zapcore/json_encoder.go", recv: "jsonEncoder", name: "Clone", lean: "Clone", fields: jeFields, recvAs: jeSelf,
+			other: jeOther, otherAs: jeOtherSelf, types: jeTypes,
+			calls: merge(bufferCalls, map[string]shim{
+				"recv.clone":   {kind: "objectfun", f: "clone"},
+				"Buffer.Write": {kind: "mutext", f: "Buffer.Write", res: []string{"int", "error"}},
+			})},
+		{file: "zapcore/json_encoder.go", name: "putJSONEncoder", lean: "putJSONEncoder", recvAs: jeSelf,
+			// here buf is the POINTER (it is set to nil), not the bytes behind it
+			fields: merge2(jeFields, map[string]fieldSpec{"buf": {"buf", "opt:Buffer"}}),
+			objParam: "enc", types: jeTypes,
+			calls: map[string]shim{
+				"opt:Buffer.Free": {kind: "extstmt", f: "Buffer.Free", trace: "#ev"},
+				"_jsonPool.Put":   {kind: "extstmt", f: "jsonPool.Put", trace: "#ev"},
+			}},
+		{file: "zapcore/json_encoder.go", recv: "jsonEncoder", name: "EncodeEntry", lean: "EncodeEntry", fields: jeEntryFields,
+			recvAs: jeSelf, other: jeOther, otherAs: jeOtherSelf,
+			types: merge1(jeTypes, map[string]string{"Entry": "struct:Entry", "Field": "Field", "Level": "i8", "time.Time": "Time",
+				"EntryCaller": "struct:EntryCaller"}),
+			structs: map[string][]fieldSpec{
+				"Entry": {{"Level", "i8"}, {"Time", "Time"}, {"LoggerName", "string"}, {"Message", "string"},
+					{"Caller", "struct:EntryCaller"}, {"Stack", "string"}},
+				"EntryCaller": {{"Defined", "bool"}, {"Function", "string"}, {"Rest", "CallerRest"}},
+			},
+			consts: map[string]string{"FullNameEncoder": "val:opt:NameEncoder|.list [.int 0]"},
+			calls: merge(bufferCalls, map[string]shim{
+				// final := enc.clone(): proved about the source as clone_matches_source; from here on `final` is primary
+				"recv.clone": {kind: "primary", f: "jsonEncoder.clone", flds: []string{"buf", "spaced", "openNamespaces", "reflectBuf", "reflectEnc"},
+					with: []string{"spaced", "openNamespaces"}, trace: "#ev"},
+				"recv.addElementSeparator": {kind: "extfld", f: "addElementSeparator", flds: []string{"buf"}, with: []string{"spaced"}},
+				"recv.addKey":              {kind: "extfld", f: "addKey", flds: []string{"buf"}, with: []string{"spaced"}},
+				"recv.closeOpenNamespaces": {kind: "extfld", f: "closeOpenNamespaces", flds: []string{"buf", "openNamespaces"}},
+				// leaf encoders of the same type (not structural): AppendString = separator + quoted escaped string, …
+				"recv.AppendString": {kind: "extfld", f: "AppendString", flds: []string{"buf"}, with: []string{"spaced"}},
+				"recv.AddString":    {kind: "extfld", f: "AddString", flds: []string{"buf"}, with: []string{"spaced"}},
+				"recv.AddTime":      {kind: "extfld", f: "AddTime", flds: []string{"buf"}, with: []string{"spaced", "EncodeTime"}},
+				// the configured sub-encoders are handed the encoder
+				"recv.EncodeLevel":      {kind: "extfld", f: "LevelEncoder", flds: []string{"buf"}, with: []string{"spaced", "EncodeLevel"}},
+				"recv.EncodeCaller":     {kind: "extfld", f: "CallerEncoder", flds: []string{"buf"}, with: []string{"spaced", "EncodeCaller"}},
+				"opt:NameEncoder()":     {kind: "extfld", f: "NameEncoder", flds: []string{"buf"}},
+				"addFields":             {kind: "extfld", f: "addFields", flds: jeState, with: []string{"spaced"}},
+				"putJSONEncoder":        {kind: "extstmt", f: "putJSONEncoder", with: []string{"reflectBuf"}, trace: "#ev"},
+				"Time.IsZero":           {kind: "ext", f: "Time.IsZero", res: []string{"bool"}},
+				"i8.String":             {kind: "ext", f: "Level.String", res: []string{"string"}},
+				"struct:EntryCaller.String": {kind: "ext", f: "EntryCaller.String", res: []string{"string"}},
+			})},
+	}},
+	{table: "TransConsole", funcs: []transFunc{
+		{file: "zapcore/console_encoder.go", recv: "consoleEncoder", name: "addSeparatorIfNecessary", lean: "addSeparatorIfNecessary",
+			fields: conFields, types: conTypes, inout: []string{"line"}, calls: bufferCalls},
+		{file: "zapcore/console_encoder.go", recv: "consoleEncoder", name: "writeContext", lean: "writeContext",
+			// `context` (the clone) is the primary object from the first statement on; `c` is the second one
+			fields: jeFields, recvAs: jeSelf, types: conTypes, inout: []string{"line"},
+			other: map[string]fieldSpec{"buf": {"o.buf", "Buffer"}, "spaced": {"o.spaced", "bool"}, "openNamespaces": {"o.openNs", "int"},
+				"ConsoleSeparator": {"consoleSep", "string"}},
+			calls: merge(bufferCalls, map[string]shim{
+				// Clone: proved about the source as Clone_matches_source (C08) — a copy of the context bytes in a fresh buffer
+				"recv.jsonEncoder.Clone.(*jsonEncoder)": {kind: "primary", f: "jsonEncoder.Clone",
+					flds: []string{"buf", "spaced", "openNamespaces", "reflectBuf", "reflectEnc"},
+					with: []string{"buf", "spaced", "openNamespaces"}, trace: "#ev"},
+				"Buffer.Free":              {kind: "extstmt", f: "Buffer.Free", trace: "#ev"},
+				"putJSONEncoder":           {kind: "extstmt", f: "putJSONEncoder", with: []string{"reflectBuf"}, trace: "#ev"},
+				"addFields":                {kind: "extfld", f: "addFields", flds: jeState, with: []string{"spaced"}},
+				"recv.closeOpenNamespaces": {kind: "extfld", f: "closeOpenNamespaces", flds: []string{"buf", "openNamespaces"}},
+				"other.addSeparatorIfNecessary": {kind: "funarg:0", f: "addSeparatorIfNecessary"},
+			})},
+		{file: "zapcore/console_encoder.go", recv: "consoleEncoder", name: "EncodeEntry", lean: "EncodeEntry",
+			fields: conFields, types: conTypes, structs: conStructs,
+			consts: map[string]string{"FullNameEncoder": "val:opt:NameEncoder|.list [.int 0]"},
+			calls: merge(bufferCalls, map[string]shim{
+				"bufferpool.Get":   {kind: "extstmt", f: "bufferpool.Get", res: []string{"Buffer"}, trace: "#ev"},
+				"getSliceEncoder":  {kind: "extstmt", f: "getSliceEncoder", res: []string{"struct:SliceEnc"}, trace: "#ev"},
+				"putSliceEncoder":  {kind: "extstmt", f: "putSliceEncoder", trace: "#ev"},
+				// the configured sub-encoders append to the slice encoder they are handed
+				"recv.EncodeTime":   {kind: "mutarg:1", f: "TimeEncoder.col", with: []string{"EncodeTime"}},
+				"recv.EncodeLevel":  {kind: "mutarg:1", f: "LevelEncoder.col", with: []string{"EncodeLevel"}},
+				"recv.EncodeCaller": {kind: "mutarg:1", f: "CallerEncoder.col", with: []string{"EncodeCaller"}},
+				"opt:NameEncoder()": {kind: "mutarg:1", f: "NameEncoder.col"},
+				"struct:SliceEnc.AppendString": {kind: "mut", f: "SliceEnc.AppendString"},
+				// fmt.Fprint(line, elem): the printed text of one column
+				"fmt.Fprint": {kind: "mutarg:0", f: "fmt.Fprint", res: []string{"int", "error"}},
+				"Time.IsZero": {kind: "ext", f: "Time.IsZero", res: []string{"bool"}},
+				"recv.addSeparatorIfNecessary": {kind: "funarg:0", f: "addSeparatorIfNecessary"},
+				"recv.writeContext":            {kind: "funarg:0", f: "writeContext"},
+			})},
+	}},
+	{table: "TransSlog", funcs: []transFunc{
+		slogFunc("", "convertSlogLevel", nil),
+		slogFunc("", "hasContent", nil),
+		slogFunc("", "convertAttrToField", nil),
+		slogFunc("Handler", "appendGroups", nil),
+		slogFunc("Handler", "WithGroup", nil),
+		slogFunc("Handler", "WithAttrs", nil),
+		func() transFunc {
+			f := slogFunc("Handler", "Handle", map[string]shim{
+				"Core.Check": {kind: "ext", f: "Core.Check", res: []string{"ptr:struct:CE"}},
+				"runtime.CallersFrames([]uintptr{…}).Next": {kind: "extstmt", f: "runtime.frameOf", res: []string{"struct:Frame", "bool"},
+					xargs: []string{"record.PC"}},
+				"stacktrace.Take": {kind: "ext", f: "stacktrace.Take", res: []string{"string"}},
+			})
+			// the attribute iteration (record.Attrs with a closure: the same insertion loop as WithAttrs) and ce.Write are
+			// ONE recorded intrinsic; what precedes it — level mapping, the Check gate, caller and stack — is translated
+			f.tail = &tailSpec{from: "fields := make([]zapcore.Field, 0, record.NumAttrs()+len(h.groups))", f: "Handler.convertAndWrite",
+				args: []string{"ce", "record"}, res: "error", trace: "#ev"}
+			return f
+		}(),
+	}},
+	{table: "TransOpen", funcs: []transFunc{
+		openFunc("writer.go", "", "open", nil, nil, map[string]shim{
+			"_sinkRegistry.newSink": {kind: "extstmt", f: "sinkRegistry.newSink", res: []string{"opt:Sink", "error"}, trace: "#ev"},
+			"opt:Sink.Close":            {kind: "extstmt", f: "Sink.Close", res: []string{"error"}, trace: "#ev"},
+		}),
+		openFunc("writer.go", "", "CombineWriteSyncers", nil, map[string]string{"io.Discard": "val:Writer|.list [.int 0]"},
+			map[string]shim{
+				"zapcore.AddSync":             {kind: "ext", f: "zapcore.AddSync", res: []string{"opt:Sink"}},
+				"zapcore.Lock":                {kind: "ext", f: "zapcore.Lock", res: []string{"opt:Sink"}},
+				"zapcore.NewMultiWriteSyncer": {kind: "ext", f: "zapcore.NewMultiWriteSyncer", res: []string{"opt:Sink"}},
+			}),
+		openFunc("writer.go", "", "Open", nil, nil, map[string]shim{
+			"open":                {kind: "fun", f: "openAll", res: []string{"[]opt:Sink", "opt:Closure", "error"}},
+			"CombineWriteSyncers": {kind: "fun", f: "CombineWriteSyncers", res: []string{"opt:Sink"}},
+		}),
+		openFunc("config.go", "Config", "buildEncoder",
+			map[string]fieldSpec{"Encoding": {"encoding", "string"}, "EncoderConfig": {"encoderConfig", "EncoderConfig"}}, nil,
+			map[string]shim{"newEncoder": {kind: "extstmt", f: "newEncoder", res: []string{"opt:Encoder", "error"}, trace: "#ev"}}),
+		openFunc("config.go", "Config", "buildOptions",
+			map[string]fieldSpec{"Development": {"development", "bool"}, "DisableCaller": {"disableCaller", "bool"},
+				"DisableStacktrace": {"disableStacktrace", "bool"}, "Sampling": {"sampling", "ptr:struct:SamplingConfig"},
+				"InitialFields": {"initialFields", "map:string:any"}},
+			map[string]string{"ErrorLevel": "val:i8|.int 2", "WarnLevel": "val:i8|.int 1"},
+			map[string]shim{
+				"ErrorOutput":   {kind: "ext", f: "ErrorOutput", res: []string{"Option"}},
+				"Development":   {kind: "ext", f: "Development", res: []string{"Option"}},
+				"AddCaller":     {kind: "ext", f: "AddCaller", res: []string{"Option"}},
+				"AddStacktrace": {kind: "ext", f: "AddStacktrace", res: []string{"Option"}},
+				"WrapCore":      {kind: "ext", f: "WrapCore", res: []string{"Option"}},
+				"Fields":        {kind: "ext", f: "Fields", res: []string{"Option"}},
+				"Any":           {kind: "ext", f: "Any", res: []string{"Field"}},
+				"sort.Strings":  {kind: "mutarg:0", f: "sort.Strings"},
+				"map:string:any.keys": {kind: "ext", f: "InitialFields.keys", res: []string{"[]string"}},
+				"map:string:any[k]":   {kind: "ext", f: "InitialFields.get", res: []string{"any"}},
+			}),
+		buildTypes(openFunc("config.go", "Config", "Build",
+			map[string]fieldSpec{"Encoding": {"encoding", "string"}, "EncoderConfig": {"encoderConfig", "EncoderConfig"},
+				"OutputPaths": {"outputPaths", "[]string"}, "ErrorOutputPaths": {"errorOutputPaths", "[]string"},
+				"Level": {"level", "AtomicLevel"},
+				// read by buildOptions
+				"Development": {"development", "bool"}, "DisableCaller": {"disableCaller", "bool"},
+				"DisableStacktrace": {"disableStacktrace", "bool"}, "Sampling": {"sampling", "ptr:struct:SamplingConfig"},
+				"InitialFields": {"initialFields", "map:string:any"}},
+			map[string]string{"AtomicLevel{}": "val:AtomicLevel|.list []"},
+			map[string]shim{
+				"recv.buildEncoder": {kind: "fun", f: "buildEncoder", res: []string{"opt:Encoder", "error"}},
+				"recv.openSinks":    {kind: "fun", f: "openSinks", res: []string{"opt:Sink", "opt:Sink", "error"}},
+				"recv.buildOptions": {kind: "funpure", f: "buildOptions", res: []string{"[]Option"}},
+				"zapcore.NewCore":   {kind: "ext", f: "zapcore.NewCore", res: []string{"Core"}},
+				"New":               {kind: "ext", f: "zap.New", res: []string{"opt:Logger"}},
+				"opt:Logger.WithOptions": {kind: "ext", f: "Logger.WithOptions", res: []string{"opt:Logger"}},
+			})),
+		openFunc("config.go", "Config", "openSinks",
+			map[string]fieldSpec{"OutputPaths": {"outputPaths", "[]string"}, "ErrorOutputPaths": {"errorOutputPaths", "[]string"}}, nil,
+			map[string]shim{
+				"Open":          {kind: "fun", f: "Open", res: []string{"opt:Sink", "opt:Closure", "error"}},
+				"opt:Closure()": {kind: "extstmtfn", f: "Closure.call", trace: "#ev"},
+			}),
+		openFunc("sink.go", "sinkRegistry", "newFileSinkFromPath", nil,
+			map[string]string{"nopCloserSink{os.Stdout}": "val:opt:Sink|.list [.int 1]", "nopCloserSink{os.Stderr}": "val:opt:Sink|.list [.int 2]",
+				"os.O_WRONLY": "1", "os.O_APPEND": "1024", "os.O_CREATE": "64"},
+			map[string]shim{"recv.openFile": {kind: "extstmt", f: "sinkRegistry.openFile", res: []string{"opt:Sink", "error"}, trace: "#ev"}}),
+		openFunc("sink.go", "sinkRegistry", "newFileSinkFromURL", nil, nil, map[string]shim{
+			"ptr:struct:URL.Port":       {kind: "ext", f: "URL.Port", res: []string{"string"}},
+			"ptr:struct:URL.Hostname":   {kind: "ext", f: "URL.Hostname", res: []string{"string"}},
+			"recv.newFileSinkFromPath":  {kind: "fun", f: "newFileSinkFromPath", res: []string{"opt:Sink", "error"}},
+		}),
+		openFunc("sink.go", "sinkRegistry", "newSink",
+			map[string]fieldSpec{"mu": {"mu", "Mutex"}, "factories": {"factories", "map:string:SinkFactory"}},
+			map[string]string{"schemeFile": "src"},
+			map[string]shim{
+				"filepath.IsAbs":             {kind: "ext", f: "filepath.IsAbs", res: []string{"bool"}},
+				"url.Parse":                  {kind: "extstmt", f: "url.Parse", res: []string{"ptr:struct:URL", "error"}},
+				"Mutex.Lock":                 {kind: "extstmt", f: "Mutex.Lock", trace: "#ev"},
+				"Mutex.Unlock":               {kind: "extstmt", f: "Mutex.Unlock", trace: "#ev"},
+				"map:string:SinkFactory[]":   {kind: "extstmt", f: "factories.get", res: []string{"SinkFactory", "bool"}},
+				"SinkFactory()":              {kind: "extstmtfn", f: "SinkFactory.call", res: []string{"opt:Sink", "error"}, trace: "#ev"},
+				"&errSinkNotFound":           {kind: "ext", f: "errSinkNotFound", res: []string{"error"}},
+				"recv.newFileSinkFromPath":   {kind: "fun", f: "newFileSinkFromPath", res: []string{"opt:Sink", "error"}},
+			}),
+		openFunc("sink.go", "", "normalizeScheme", nil, nil, map[string]shim{
+			"strings.ToLower": {kind: "ext", f: "strings.ToLower", res: []string{"string"}},
+		}),
+		openFunc("global.go", "", "redirectStdLogAt",
+			map[string]fieldSpec{"#std.flags": {"std.flags", "int"}, "#std.prefix": {"std.prefix", "string"}, "#std.out": {"std.out", "Writer"}},
+			map[string]string{"_stdLogDefaultDepth": "src", "_loggerWriterDepth": "src"},
+			map[string]shim{
+				"Logger.WithOptions": {kind: "ext", f: "Logger.WithOptions", res: []string{"Logger"}},
+				"AddCallerSkip":      {kind: "ext", f: "AddCallerSkip", res: []string{"Option"}},
+				"levelToFunc":        {kind: "extstmt", f: "levelToFunc", res: []string{"LogFunc", "error"}},
+				"log.Flags":          {kind: "ext", f: "id", with: []string{"#std.flags"}, res: []string{"int"}},
+				"log.Prefix":         {kind: "ext", f: "id", with: []string{"#std.prefix"}, res: []string{"string"}},
+				"log.SetFlags":       {kind: "extfld", f: "set", flds: []string{"#std.flags"}},
+				"log.SetPrefix":      {kind: "extfld", f: "set", flds: []string{"#std.prefix"}},
+				"log.SetOutput":      {kind: "extfld", f: "set", flds: []string{"#std.out"}},
+				"&loggerWriter":      {kind: "ext", f: "loggerWriter", res: []string{"Writer"}},
+			}),
 	}},
 	{table: "TransLogger", funcs: []transFunc{
 		{file: "logger.go", name: "terminalHookOverride", lean: "terminalHookOverride", types: loggerTypes, consts: hookConsts},
